@@ -67,15 +67,11 @@ Lowest(S) == CHOOSE c \in S : \A d \in S : c <= d
 
 Quiet == {c \in Clients : HasNext(c) /\ ~IsWrite(c) /\ ENABLED SpecStep(c)}
 
-(* the logged values of the line, and the smallest one strictly above the current value *)
-Observed == UNION {{AsVal(Trace[l].ev[c][i].in) : i \in 1..Len(Trace[l].ev[c])} : c \in 1..NCl(Trace[l])}
-               \cup {AsVal(Trace[l].final)}
-Above    == {v \in Observed : cell.val \subseteq v /\ v # cell.val}
-Fits(c)  == \E t \in Above :
-               /\ \A u \in Above : Cardinality(t) <= Cardinality(u)
-               /\ Written(AppendTag(cl[c].sval, c, cl[c].op)) \subseteq t
-Writers  == {c \in Clients : HasNext(c) /\ IsWrite(c) /\ cl[c].pc = "inf" /\ CanWrite(c) /\ Fits(c)}
-StrictW  == {c \in Writers : ~Blind(c)}
+(* the logged values of each line (a constant: TLC evaluates it once), and those of the current *)
+(* line strictly above the current value                                                       *)
+ObsOf(t) == UNION {{AsVal(t.ev[c][i].in) : i \in 1..Len(t.ev[c])} : c \in 1..Len(t.ev)} \cup {AsVal(t.final)}
+Obs      == [i \in 1..Len(Trace) |-> ObsOf(Trace[i])]
+Above    == {v \in Obs[l] : cell.val \subseteq v /\ v # cell.val}
 
 LineDone == \A c \in Clients : ~HasNext(c)
 
@@ -93,10 +89,18 @@ NextLine ==
             /\ hist' = <<[a |-> "setup", be |-> Trace[l + 1].be, sec |-> "none", limit |-> Limit]>>
        ELSE UNCHANGED vars
 
+(* One successful put: its result must fit under the lowest logged value above the current one; *)
+(* among those that do, one computed from the current value goes first, then the lowest caller.  *)
+Writers == LET ab     == Above
+               lowest == {t \in ab : \A u \in ab : Cardinality(t) <= Cardinality(u)}
+           IN {c \in Clients : /\ HasNext(c) /\ IsWrite(c) /\ cl[c].pc = "inf" /\ CanWrite(c)
+                               /\ \E t \in lowest : Written(AppendTag(cl[c].sval, c, cl[c].op)) \subseteq t}
+StrictW == {c \in Writers : ~Blind(c)}
+
 TraceNext ==
     /\ l <= Len(Trace)
     /\ \/ Quiet # {} /\ SpecStep(Lowest(Quiet))
-       \/ Quiet = {} /\ Writers # {} /\ SpecStep(Lowest(IF StrictW # {} THEN StrictW ELSE Writers))
+       \/ Quiet = {} /\ ~LineDone /\ Writers # {} /\ SpecStep(Lowest(IF StrictW # {} THEN StrictW ELSE Writers))
        \/ NextLine
 
 RECURSIVE SumLen(_, _)
